@@ -162,6 +162,9 @@ func anFlags(a map[string]string) string {
 }
 
 func init() {
+	absSpecs["Lv"] = absSpec{prop: "Lv", roles: []string{"outSender", "inSender", "outReceiver", "inReceiver"}, flags: func(a map[string]string) string {
+		return bit(a["timer"]) + bit(a["confwatch"]) + bit(a["csvwatch"])
+	}, params: func([]string) string { return "" }}
 	absSpecs["An"] = absSpec{chain: "lbtc", prop: "An", roles: []string{"outSender", "inReceiver"}, flags: anFlags, params: func([]string) string { return "" }}
 	registerAbsSlices()
 }
